@@ -15,6 +15,7 @@ DECIDED = [
     "ATOMIC-FAIL: on every path to a failure return (AWS_OP_ERR / false / NULL view) no field of a caller-visible object differs from its entry value and no byte was written through a caller's pointer (documented exceptions listed)",
     "KEEP: appending/writing operations write only at offsets >= the buffer's length at entry",
     "GROW-ORDER: dynamic growth copies old contents and the appended bytes before scrubbing and releasing the old block, then installs the new block; the secure variants scrub before release",
+    "VIEW: every cursor / buffer a function hands out (returned by value, or stored through a cursor/buffer parameter) describes bytes inside one tracked object - 0 <= ptr - base, (ptr - base) + len <= extent(base), for buffers also capacity <= extent of the allocation - and a NULL pointer comes with length 0 (NUM, all lengths; entry views are assumed valid: NULL => empty)",
     "SECURE-ZERO: the zeroing memset is followed by a volatile asm barrier that takes the buffer as operand with a memory clobber",
 ]
 NOT_DECIDED = ["byte-for-byte content equality across call sequences", "accesses through caller-provided raw pointers without a stated extent (out-parameters)"]
@@ -97,6 +98,7 @@ def analyse(ctx, replace=None, only=None):
     R.require(len(fns) >= 80, "only %d functions found in byte_buf.c" % len(fns))
     n_ok = 0
     n_und = 0
+    n_view = 0
     hooks = AwsHooks()
     for f in fns:
         R.fn(f)
@@ -155,6 +157,7 @@ def analyse(ctx, replace=None, only=None):
         writes_fields = any(e.mode in ("w", "rw") for e in f.field_accesses(rec="aws_byte_buf", field=("len", "capacity", "buffer")))
         exempt = EXEMPT_FAIL.get(f.name, set())
         ptypes = {p["n"]: f.unit.types[p["t"]] for p in f.params}
+        vstat = {}
         for r in rets:
             for st in states.get(r["id"], []):
                 # NOWRAP
@@ -175,6 +178,8 @@ def analyse(ctx, replace=None, only=None):
                                 R.check(okv, "INV", "%s:%s" % (f.name, pn), "%s:%d in %s()" % (f.file.replace("/repo/", ""), r.get("loc", [0])[0], f.name),
                                         "returns with %s->len <= %s->capacity" % (pn, pn),
                                         "a path returns with %s->len = %r which is not provably <= capacity = %r" % (pn, st.env[kl], st.env[kc]))
+                # VIEW
+                view_outputs(R, num, st, f, r, ptypes, vstat)
                 # ATOMIC-FAIL
                 fk = failure_kind(num, st, f, r)
                 if fk == "fail":
@@ -201,10 +206,92 @@ def analyse(ctx, replace=None, only=None):
                     R.check(okv, "ATOMIC-FAIL", f.name, "%s:%d in %s()" % (f.file.replace("/repo/", ""), r.get("loc", [0])[0], f.name),
                             "failure return with every caller-visible field at its entry value and no byte written",
                             "a failure return is reached after modifying caller-visible state: %s %s (trail %s)" % (changed[:3], ["line %d -> %s" % m for m in memw[:3]], st.trail[-6:]))
+        for (what, line), (status, det, cnt) in sorted(vstat.items()):
+            inst = "%s:%s" % (f.name, what)
+            loc = "%s:%d in %s()" % (f.file.replace("/repo/", ""), line, f.name)
+            if status == "ok":
+                n_view += 1
+                R.ok("VIEW", inst, loc, "the produced view/buffer lies inside a tracked object in all %d states: %s" % (cnt, det))
+            elif status == "fail":
+                R.fail("VIEW", inst, loc, "a produced view/buffer is not provably inside the object it was derived from: " + det)
+    R.require(n_view >= VIEW_MIN, "only %d produced views/buffers were proven inside their objects (confirmed: >= %d)" % (n_view, VIEW_MIN))
     R.require(n_ok >= 30, "only %d bounds obligations discharged in byte_buf.c (confirmed: >= 36)" % n_ok)
     R.notes.append("%d accesses through caller-provided raw pointers without a stated extent were not checked" % n_und)
     grow_order(R, P)
     secure_zero(R, P)
+
+
+VIEW_MIN = 90
+
+
+def view_outputs(R, num, st, f, r, ptypes, vstat):
+    """VIEW: every cursor / buffer value this return hands out (by value, or through a cursor/buffer parameter whose
+    fields it stored) describes bytes inside one tracked object: 0 <= ptr - base and (ptr - base) + len <= extent(base);
+    for buffers additionally capacity <= extent.  A NULL pointer must come with length 0."""
+    outs = []
+    rt = f.rettype()
+    line = r.get("loc", [0])[0]
+    if rt.get("rec") in ("aws_byte_cursor", "aws_byte_buf") and not rt.get("ptr") and r["a"] and r["a"][0] is not None:
+        rv = f.d(r["a"][0])
+        k = num.key(rv, st) if rv is not None else None
+        if k:
+            outs.append(("return", rt["rec"], k + "."))
+    written = st.notes.get("orig", {})
+    for pn, pt in ptypes.items():
+        if pt.get("rec") in ("aws_byte_cursor", "aws_byte_buf") and pt.get("ptr") and not pt.get("const_pointee"):
+            pa = st.env.get("v:" + pn)
+            if pa is None or len(pa.t) != 1:
+                continue
+            pre = "(%r)->" % pa
+            fl = ("ptr", "len") if pt["rec"] == "aws_byte_cursor" else ("buffer", "len", "capacity")
+            o = st.notes.get("orig", {})
+            if any(pre + x in st.env and (o.get(pre + x) is None or st.env[pre + x] != Poly.atom(o[pre + x])) for x in fl):
+                outs.append((pn, pt["rec"], pre))
+    for what, rec, pre in outs:
+        pf, sizes = ("ptr", ("len",)) if rec == "aws_byte_cursor" else ("buffer", ("len", "capacity"))
+        p = st.env.get(pre + pf)
+        for sf in sizes:
+            n = st.env.get(pre + sf)
+            key = ("%s.%s" % (what, sf), line)
+            old = vstat.get(key, ("ok", "", 0))
+            if p is None or n is None:
+                if old[0] == "ok":
+                    vstat[key] = ("untracked", "field not tracked", old[2])
+                continue
+            if p.is_const() and p.cval() == 0:
+                s0 = _null_means_empty(st)
+                if entails(s0, n) and entails(s0, -n):
+                    vstat[key] = (old[0], old[1] or "NULL with length 0", old[2] + 1)
+                else:
+                    vstat[key] = ("fail", "a NULL %s comes with %s = %r (trail %s)" % (pf, sf, n, st.trail[-5:]), old[2] + 1)
+                continue
+            res = in_bounds(st.copy(), p, n)
+            if res[0] == "ok":
+                vstat[key] = (old[0], old[1] or res[1], old[2] + 1)
+            elif res[0] == "fail":
+                vstat[key] = ("fail", "%s = %r, %s = %r: %s (trail %s)" % (pf, p, sf, n, res[1], st.trail[-5:]), old[2] + 1)
+            elif old[0] == "ok":
+                vstat[key] = ("untracked", res[1], old[2] + 1)
+
+
+def _null_means_empty(st):
+    """the validity precondition of views and buffers handed in: a NULL pointer comes with length (and capacity) 0.
+    Applied where the path has established that an entry pointer is NULL."""
+    s0 = st.copy()
+    o = st.notes.get("orig", {})
+    for k, a in o.items():
+        if a is None:
+            continue
+        for pf, sizes in (("ptr", ("len",)), ("buffer", ("len", "capacity"))):
+            if k.endswith(">" + pf) or k.endswith("." + pf):
+                P = Poly.atom(a)
+                if entails(st, P) and entails(st, -P):
+                    for sf in sizes:
+                        z = o.get(k[:-len(pf)] + sf)
+                        if z is not None:
+                            s0.add(Poly.atom(z))
+                            s0.add(-Poly.atom(z))
+    return s0
 
 
 def _atoms_of(s):
@@ -309,6 +396,10 @@ def secure_zero(R, P):
 
 
 MUTANTS = [
+    {"name": "copy-allocates-len-keeps-capacity", "file": BB, "expect": "VIEW",
+     "old": "    dest->buffer = (uint8_t *)aws_mem_acquire(allocator, src->capacity);", "new": "    dest->buffer = (uint8_t *)aws_mem_acquire(allocator, src->len > 0 ? src->len : src->capacity);"},
+    {"name": "right-trim-counts-from-capacity", "file": BB, "expect": "VIEW",
+     "old": "    struct aws_byte_cursor dest = aws_byte_cursor_right_trim_pred(&left_trimmed, predicate);", "new": "    struct aws_byte_cursor dest = aws_byte_cursor_right_trim_pred(&left_trimmed, predicate);\n    dest.len -= source->len - left_trimmed.len;"},
     {"name": "write-overwrites-last-byte", "file": BB, "expect": "KEEP",
      "old": "    memcpy(buf->buffer + buf->len, src, len);\n    buf->len += len;", "new": "    memcpy(buf->buffer, src, len);\n    buf->len += len;"},
     {"name": "append-guard-off-by-one", "file": BB, "expect": "BOUND",
